@@ -45,6 +45,13 @@ SPECS = {
     "nullrule": '<start> ::= <e>* "b"\n<e> ::= "a" | ""\n',
     "nulltwice": '<start> ::= <e> <e> "b"\n<e> ::= "a" | ""\n',
     "nullopen": '<start> ::= ("a"?){2,} "b"\n',
+    # regex terminals (finite-alphabet conditions only: the regex engines realise their subject)
+    "rx1": '<start> ::= r"[ab]+" "c"\n',
+    "rx2": '<start> ::= "x" r"[0-9]{2}" ("y" | r"[a-b]")\n',
+    "rxe": '<start> ::= r"a*" "b"\n',
+    "rxstar": '<start> ::= (r"a+" | "b")* "x"\n',
+    "rxopt": '<start> ::= "x" r"[0-9]?" "y"\n',
+    "rxgen": '<start> ::= rb"[\\x7f-\\x81]{1,2}" b"!" r"[ab]?"\n',
     "nullseq": '<start> ::= ("a"? "c")* "b"\n',
     "nullplus": '<start> ::= ("a"?)+ "b"\n',
     "nullnest": '<start> ::= ("a"*)* "b"\n',
@@ -123,6 +130,13 @@ def ends(G, node, w, i, depth=0):
     if depth > (len(w) + 1) * len(G.rules) + 1:
         return set()
     if isinstance(node, TerminalNode):
+        if node.symbol.is_regex:
+            # reference semantics of a regex terminal: any split (the property restricts the claim to
+            # grammars whose regex terminals cannot be split in more than one way, which the family obeys)
+            import re as _re
+
+            pat = _lit(node)
+            return {j for j in range(i, len(w) + 1) if _re.fullmatch(pat, w[i:j]) is not None}
         lit = _lit(node)
         n = len(lit)
         if i + n <= len(w) and w[i : i + n] == lit:
@@ -177,6 +191,13 @@ def leaf_matches(tnode, leaf):
         return False
     a = tnode.symbol.value()
     b = leaf.symbol.value()
+    if tnode.symbol.is_regex:
+        import re as _re
+
+        pat, txt = a._value, b._value
+        if isinstance(pat, bytes):
+            return isinstance(txt, bytes) and _re.fullmatch(pat, txt) is not None
+        return isinstance(txt, str) and _re.fullmatch(pat, txt) is not None
     for kind in (str, bytes):
         if isinstance(a._value, kind):
             return isinstance(b._value, kind) and a._value == b._value and a._trailing_bits == b._trailing_bits
